@@ -35,6 +35,13 @@ def generate(tier, seed):
                 sd['flux'] = [[float(np.float32(x)) for x in row] for row in sd['flux']]
                 sd['err'] = [[float(np.float32(x)) for x in row] for row in sd['err']]
             pkg['flux_unit'], pkg['flux_pow2'], pkg['cube_dtype'] = 'YJy', -90, 'float32'
+        if k % 5 == 4 and 'nu' in pkg and not any('nu' in sd for sd in pkg['seds'].values()):
+            # FREQUENCY columns in single precision with all 24 bits in use: the mid-points between neighbouring frequencies (the bin
+            # edges of C06) are then not single-precision numbers
+            import numpy as np
+            new = sorted(set(float(np.float32(x * (1 + rng.random() * 2.0 ** -9))) for x in pkg['nu']))
+            if len(new) == len(pkg['nu']):
+                pkg['nu'], pkg['nu_dtype'] = new, 'float32'
         if k % 4 == 2 and len(pkg['names']) >= 2:
             # the cube lists the models in another order than the parameter table (the convolved files then follow the cube)
             cn = list(pkg['par_order'])
